@@ -11,7 +11,8 @@ COQ_HEADER = ("From Coq Require Import List NArith ZArith.\nFrom RV Require Impo
               "Import ListNotations.\nLocal Open Scope N_scope.")
 RUN_EXPR = "Run.C36.run"
 RULE = ("random programs of the statement subset (rules, declarations, nested properties, @media, at-rules, @at-root, @if, "
-        "@each, mixins with content blocks, @error) with loud comments (plain, multi-line, interpolated, `/*!`) in every "
+        "@each, mixins with content blocks, @error) with loud comments (plain, multi-line, interpolated, `/*!` with and without "
+        "interpolation, literal `#` and `#` directly before / after an interpolation) in every "
         "statement position and `//` comments sprinkled between statements, compiled in both styles; distinct = distinct "
         "SCSS text; non-trivial = the run reaches at least one loud comment")
 EXHAUSTIVE = {"quick": False, "thorough": False}
@@ -21,9 +22,25 @@ ASSUMPTIONS = ["statement subset of Model/OutDest.v; literal selectors and value
 SHARD = 120
 
 
+# preserved comments with interpolation in several statement positions; `#` next to interpolation
+BANGWIT = [
+    {"mixins": [[["c", "! mix v3 ", "! mix #{v3} "], ["d", "w", "x"]]],
+     "main": [["c", "! lib v123 ", "! lib v#{123} "], ["c", " ord 1 ", " ord #{1} "],
+              ["r", [["p", ".w"]], [["c", "! lic 9 ", "! lic #{9} "], ["d", "c", "d"],
+                                    ["m", "screen", [["c", "! med 5 ", "! med #{5} "], ["d", "e", "f"]]],
+                                    ["inc", 0, None],
+                                    ["loop", 2, [["c", "! it k ", "! it #{k} "]]]]]]},
+    {"mixins": [], "main": [["c", " id #main ", " id ##{main} "], ["c", " plain main, issue #12, a#b "],
+                            ["r", [["p", ".p"]], [["c", " brand #336699 ", " brand ##{336699} "],
+                                                  ["c", "! ticket ##3 ", "! ticket ###{3} "], ["d", "c", "d"]]]]},
+]
+
+
 def gen_cases(ctx, tier):
     rng = ctx.rng
     cases = []
+    for pr in BANGWIT:
+        cases.append({"src": D.program_scss(pr), "prog": pr})
     for src in ["a{b:{@media print{/* lost */}}}", "a{@media print{b{/* one */} /* two */}}", "/*! keep */ a{b:c}", "a{/* x */ b:c; /*! y */}", "/* #{1 + 1} */", "// silent\na{b:c} /* loud */"]:
         cases.append({"src": src, "prog": None})
     n = 700 if tier == "quick" else 6000
